@@ -171,6 +171,9 @@ def gen_cases(ctx: Ctx) -> List[Dict[str, Any]]:
     cases.append({"sc": sc_(dict(data=2, coordinates=3, velocities=1, forces=2, xyz=2, print=0, ckpt=4), 11), "crashes": [dict(step=8, upto=6, hard=True)]})
     cases.append({"sc": sc_(dict(data=2, coordinates=3, velocities=1, forces=2, xyz=2, print=0, ckpt=4), 11), "crashes": [dict(step=8, upto=5, hard=False), dict(step=9, upto=3, hard=True)]})
     cases.append({"sc": sc_(dict(data=1, coordinates=2, velocities=0, forces=0, xyz=3, print=0, ckpt=5), 9), "crashes": [dict(step=3, upto=2, hard=True)]})  # before first checkpoint
+    # hard kill right after a checkpoint whose interval held vector rows only (no /data row since the previous checkpoint): what was flushed at the checkpoint is what survives
+    cases.append({"sc": sc_(dict(data=4, coordinates=1, velocities=1, forces=2, xyz=0, print=0, ckpt=2), 9), "crashes": [dict(step=7, upto=0, hard=True)]})
+    cases.append({"sc": sc_(dict(data=3, coordinates=1, velocities=2, forces=0, xyz=1, print=0, ckpt=2), 8, engine=["langevin", "xl"][ctx.seed % 2]), "crashes": [dict(step=[3, 5][ctx.seed % 2], upto=0, hard=True)]})
     n_rand = 160 if ctx.thorough else 34
     engines = ["basic", "langevin", "xl", "ksa", "xl"]
     for i in range(n_rand):
